@@ -70,12 +70,14 @@ def gen_offered(kind, n, rng, ids):
     r = rng.random()
     if r < 0.55:
         t = mk_track(kind, n, rng)
+        ids.setdefault("alive", []).append(t)        # (ids is keyed by id(): every offered object stays alive, a dead object's id would be reused)
         ids[id(t)] = len(ids) + 1
         return t, [Sym("t"), ids[id(t)], n]
     if r < 0.8:
         f = rng.choice([x for x in [0, 1, n - 1, n + 1, 2 * n] if x != n and x >= 0])
         # (four in ten of the wrong-length tracks HAD the block's length when they were constructed and were cut or extended since)
         t = mk_track(kind, f, rng, was=n if rng.random() < 0.4 else None)
+        ids.setdefault("alive", []).append(t)
         ids[id(t)] = len(ids) + 1
         return t, [Sym("t"), ids[id(t)], f]
     other_kind = rng.choice([k for k in ("data3d", "force3d", "emg") if k != kind])
